@@ -24,7 +24,8 @@ MCfgV == [node |-> NodeCfg, peerOrder |-> PeerOrder, peers |-> PeerCfg, appOrder
           canon |-> IF "canon" \in DOMAIN P THEN P.canon ELSE <<>>,
           apps |-> [a \in Apps |-> [id |-> AppCfg[a].id, auth |-> AppCfg[a].auth, acct |-> AppCfg[a].acct,
                                     peers |-> SelectSeq(PeerOrder, LAMBDA p : p \in AppCfg[a].peers),
-                                    realms |-> SetSeq(AppCfg[a].realms), kind |-> AppCfg[a].kind, handler |-> AppCfg[a].handler, max |-> AppCfg[a].max]]]
+                                    realms |-> SetSeq(AppCfg[a].realms), kind |-> AppCfg[a].kind, handler |-> AppCfg[a].handler, max |-> AppCfg[a].max,
+                                    late |-> IsLateApp(a)]]]
 C06 == INSTANCE Mon_C06 WITH MCfg <- MCfgV
 C07 == INSTANCE Mon_C07 WITH MCfg <- MCfgV
 C11 == INSTANCE Mon_C11 WITH MCfg <- MCfgV
@@ -65,7 +66,10 @@ Msgs(c) ==
              : h \in Hosts, aa \in {<<<<RegApp>>, <<>>>>, <<<<77>>, <<>>>>, <<<<>>, <<RegApp>>>>}} ELSE {}) \cup
   (IF "cerup" \in Alpha /\ "canon" \in DOMAIN P /\ S.conn[c].dir = "in" /\ S.conn[c].st = "CONNECTED" /\ S.conn[c].nodeName = ""
      \* a CER whose Origin-Host spells a configured peer's name differently (upper case)
-     THEN {Mk("CE", 257, TRUE, 1, 1, 0, k, "", 0, FALSE, TRUE, FALSE, <<RegApp>>, <<>>, FALSE) : k \in DOMAIN P.canon} ELSE {}) \cup
+     THEN {Mk("CE", 257, TRUE, 7, 77, 0, k, "", 0, FALSE, TRUE, FALSE, <<RegApp>>, <<>>, FALSE) : k \in DOMAIN P.canon} ELSE {}) \cup
+  (IF "cer2" \in Alpha /\ Len(AppOrder) > 1 /\ S.conn[c].dir = "in" /\ S.conn[c].st = "CONNECTED" /\ S.conn[c].nodeName = ""
+     \* a CER offering the id of the second application only
+     THEN {Mk("CE", 257, TRUE, 1, 1, 0, h, "", 0, FALSE, TRUE, FALSE, <<AppCfg[AppOrder[2]].id>>, <<>>, FALSE) : h \in Peers} ELSE {}) \cup
   (IF "cerout" \in Alpha /\ S.conn[c].dir = "out" /\ S.conn[c].st = "CONNECTED"        \* a CER where the node expects the CEA
      THEN {Mk("CE", 257, TRUE, 1, 1, 0, S.conn[c].nodeName, "", 0, FALSE, TRUE, FALSE, <<RegApp>>, <<>>, FALSE)} ELSE {}) \cup
   (IF "dwr2" \in Alpha /\ c = 2 THEN {Mk("DW", 280, TRUE, 1, 1, 0, h, "", 0, FALSE, TRUE, FALSE, <<>>, <<>>, FALSE) : h \in sp} ELSE {}) \cup   \* only connection 2 speaks
@@ -108,6 +112,8 @@ Acts ==
   (IF S.now < MaxTime THEN {[a |-> "tick"]} ELSE {}) \cup
   (IF "jump100" \in Alpha /\ S.now + 100 <= MaxTime THEN {[a |-> "jump", n |-> 100]} ELSE {}) \cup
   (IF S.nconn < MaxConn /\ S.listen = "open" THEN {[a |-> "connect"]} ELSE {}) \cup
+  \* an application is registered while the node runs
+  (IF "addapp" \in Alpha THEN {[a |-> "addapp", app |-> x] : x \in {y \in Apps : IsLateApp(y) /\ y \notin Reg(S)}} ELSE {}) \cup
   (IF "stop" \in Alpha /\ S.stop.phase = "none" THEN {[a |-> "stop", force |-> FALSE, wait |-> 2]} ELSE {}) \cup
   (IF "stopf" \in Alpha /\ S.stop.phase = "none" THEN {[a |-> "stop", force |-> TRUE, wait |-> 2]} ELSE {}) \cup
   UNION {{[a |-> "feed", c |-> c, ms |-> <<m>>] : m \in Msgs(c)} : c \in {x \in ConnIds : Whole(x)}} \cup
